@@ -101,6 +101,19 @@ pub fn c09_scenario(seed: u64, idx: u64) -> Scenario {
         let mut o = Conn::simple(gid + 2, gid as u32 + 2, req("OPTIONS", &p, &hs2, b""), "options");
         o.twin = Some(gid);
         sc.conns.push(o);
+        // other clients at the same time as each member of the group, with another Origin (configured
+        // when the group's is not, and the other way round): what the group gets must not depend on them
+        if rng.chance(1, 3) {
+            let mine = hs.iter().find(|(n, _)| n == "Origin").map(|(_, v)| v.clone());
+            for ph in gid..gid + 3 {
+                for _ in 0..rng.range(1, 3) {
+                    let theirs = if mine.as_ref().map(|m| origins.contains(m)).unwrap_or(false) || origins.is_empty() { "http://other.example".to_string() } else { origins[rng.below(origins.len())].clone() };
+                    let m = *rng.pick(&["GET", "OPTIONS", "HEAD"]);
+                    let id = sc.conns.len();
+                    sc.conns.push(Conn::simple(id, ph as u32, req(m, &p, &[("Origin", &theirs), ("Access-Control-Request-Method", "GET")], b""), "interferer"));
+                }
+            }
+        }
         // now and then the client comes back and revalidates with what the server gave it
         if rng.chance(1, 4) {
             let g2 = sc.conns.len();
@@ -112,6 +125,9 @@ pub fn c09_scenario(seed: u64, idx: u64) -> Scenario {
             h.revalidate = Some(gid);
             sc.conns.push(h);
         }
+    }
+    if rng.chance(1, 5) {
+        boot_through_start_up(&mut rng, &mut sc, false);
     }
     sc
 }
@@ -250,6 +266,15 @@ pub fn c11_scenario(seed: u64, idx: u64) -> Scenario {
             }
         }
         sc.conns.push(c);
+    }
+    // a third of the runs: the configuration arrives through the real start-up code (environment,
+    // rws.config.toml, command line - with decoys in the sources that lose); half of those with the
+    // simulated clock, whose jumps make minutes pass between two connections
+    if rng.chance(1, 3) {
+        boot_through_start_up(&mut rng, &mut sc, false);
+        if rng.chance(1, 2) {
+            sc.yields.push("clock".into());
+        }
     }
     sc
 }
